@@ -92,6 +92,8 @@ class Evaluator:
             return ("num", Fraction(n.value), isinstance(n.value, float))
         if isinstance(n, ast.Name):
             if n.id not in env:
+                if n.id == "float":       # float(x): the identity on the reals (it only fixes the numeric type)
+                    return Obj("floatfn")
                 fail(n, "unknown name %r" % n.id)
             return env[n.id]
         if isinstance(n, ast.Attribute):
@@ -130,6 +132,9 @@ class Evaluator:
             for kw in n.keywords:
                 if kw.arg is None:
                     fail(n, "**kwargs")
+                if kw.arg == "limit" and isinstance(f, Obj) and f.tag == "quad":
+                    kwargs[kw.arg] = None      # quad's subdivision limit: part of the trusted quadrature, not of the integral's meaning
+                    continue
                 kwargs[kw.arg] = self.expr(kw.value, env)
             if isinstance(f, Closure):
                 if kwargs:
@@ -400,9 +405,13 @@ class IntegratorEval(Evaluator):
             if args or kwargs:
                 fail(n, "dict() with arguments")
             return Obj("cache")
+        if f.tag == "floatfn":
+            if kwargs or len(args) != 1 or not is_real(args[0]):
+                fail(n, "float() with unexpected arguments")
+            return args[0]
         if f.tag == "quad":
-            if kwargs or len(args) != 3:
-                fail(n, "quad must be called as quad(f, lo, hi) (tolerances/limits are part of the trusted quadrature)")
+            if set(kwargs) - {"limit"} or len(args) != 3:
+                fail(n, "quad must be called as quad(f, lo, hi[, limit=...]) (tolerances/limits are part of the trusted quadrature)")
             fn, lo, hi = args
             if not isinstance(fn, Closure) or len(fn.params) != 1 or not (is_real(lo) and is_real(hi)):
                 fail(n, "quad arguments of unexpected kind")
